@@ -393,8 +393,19 @@ def judge_explain_view_period(rec, rnd, tmp, k):
                 'tags: treat\n\n[Ski Pass]\nmatch: contains("SKI PASS")\ncategory: Seasonal\nsubcategory: Sport\ntags: winter\n\n[Snow Cafe]\nmatch: contains("SNOW CAFE")\n'
                 'category: Seasonal\nsubcategory: Cafe\ntags: winter, treat\n')
     vf = rnd.choice(['months >= period("month") * %s' % frac, 'months >= need', 'months / period("month") >= %s' % frac])
-    with open(os.path.join(root, 'config', 'views.rules'), 'w') as f:
+    vname = rnd.choice(['views.rules', 'views.rules', 'views-2025.rules', 'my views.rules'])
+    with open(os.path.join(root, 'config', vname), 'w') as f:
         f.write('need = period("month") * %s\n\n[Regular]\nfilter: %s\n\n[Everything]\nfilter: true\n' % (frac, vf))
+    if vname != 'views.rules':
+        # the settings name THIS file; a views.rules left over from `tally init` lies beside it and is not the one in use
+        sp_ = os.path.join(root, 'config', 'settings.yaml')
+        txt_ = open(sp_).read().replace('views_file: config/views.rules', 'views_file: "config/%s"' % vname)
+        with open(sp_, 'w') as f:
+            f.write(txt_)
+        if rnd.random() < .7:
+            with open(os.path.join(root, 'config', 'views.rules'), 'w') as f:
+                f.write('[Regular]\nfilter: total > 1000000\n\n[Other]\nfilter: true\n')
+        rec.count('explain_view_budgets_with_another_views_file')
     cfg = os.path.join(root, 'config')
     case = {'kind': 'explain-view-period', 'months': nmonths, 'short': short, 'filter': vf}
     rec.case()
